@@ -1,6 +1,7 @@
 import EntraitProofs.C04
 import EntraitProofs.C10
 import EntraitProofs.C15
+import EntraitProofs.C12
 /-
   C05 — concrete-dependency functions yield a leaf trait any application can adopt.
 
@@ -184,6 +185,17 @@ theorem T_C05_nested_no_mock (v : Variant) (t : TraitItem) (out : Out)
   have hm : (v.apply { unimock := some false, mockall := some false }).mockallValue = false := by cases v <;> rfl
   simp [hu, hm, reappliedSubs]
 
+
+/-- C05 with the clause that the leaf trait is final (its async methods are what C12 prescribes) -/
+theorem T_C05_full (v : Variant) (attr : Toks) (item : Item) (out : Out)
+    (h : expand v attr item = .ok out) : P_C05_full v attr item out.view = true := by
+  unfold P_C05_full
+  rw [T_C05 v attr item out h, Bool.true_and]
+  cases item with
+  | fn f => simp only [C12.T_C12 v attr (.fn f) out h, Bool.or_true]
+  | mod_ m => rfl
+  | trait t => rfl
+  | impl m => rfl
 
 /-! ### the two stages composed, inside the model -/
 
